@@ -1,4 +1,5 @@
 import ast
+import re
 from typing import Set
 
 from executing import Source
@@ -28,8 +29,9 @@ def contains_import(tree, module, name):
 def used_externals_in(source) -> Set[str]:
     tree = ast.parse(source)
 
-    if not contains_import(tree, "inline_snapshot", "external"):
-        return set()
+    # The name can also be bound by an import inside of a try/if block or a
+    # re-export of another module. Every call which looks like a reference is
+    # counted, because it is safer to keep data than to remove referenced data.
 
     usages = []
 
@@ -44,7 +46,10 @@ def used_externals_in(source) -> Set[str]:
     return {
         u.args[0].value
         for u in usages
-        if u.args and isinstance(u.args[0], ast.Constant)
+        if u.args
+        and isinstance(u.args[0], ast.Constant)
+        and isinstance(u.args[0].value, str)
+        and re.fullmatch(r"[0-9a-fA-F]*\*?\.[a-zA-Z0-9]*", u.args[0].value)
     }
 
 
